@@ -232,12 +232,89 @@ def translate_store(tag, fname, sname):
     return out
 
 
+def fold_self(ts):
+    """`self . field` -> one identifier token self_field (read access to a field of the store)"""
+    out, i = [], 0
+    while i < len(ts):
+        if ts[i] == ("id", "self") and i + 2 < len(ts) and ts[i + 1][1] == "." and ts[i + 2][0] == "id" and (i + 3 >= len(ts) or ts[i + 3][1] != "("):
+            out.append(("id", "self_" + ts[i + 2][1]))
+            i += 3
+        else:
+            out.append(ts[i])
+            i += 1
+    return out
+
+
+class SF(dict):
+    """environment in which every self_<field> is a number read through the parameter [sf]"""
+    def __contains__(self, k):
+        return dict.__contains__(self, k) or k.startswith("self_")
+
+    def __getitem__(self, k):
+        if dict.__contains__(self, k):
+            return dict.__getitem__(self, k)
+        return ("Z", '(sf "%s"%%string)' % k[5:])
+
+
+def translate_sweep(tag, fname):
+    """the predicate of the store's only `self.data.retain(|_, (_, expiry)| ..)`; for PeriodicStore also the trigger
+    `if <cond> {` that encloses it and the assignment `self.next_cleanup = <expr>;`"""
+    with open(os.path.join(REPO, "throttlecrab/src/core/store", fname)) as f:
+        toks = lex(strip_comments(f.read()))
+    idx = [i for i in range(len(toks) - 4) if [t[1] for t in toks[i:i + 5]] == ["self", ".", "data", ".", "retain"]]
+    if len(idx) != 1:
+        raise TranslateError("%s: expected exactly one self.data.retain(..)" % fname)
+    lo = idx[0] + 5
+    hi = matching(toks, lo, "(", ")")
+    clo = toks[lo + 1:hi]
+    if [t[1] for t in clo[:10]] != ["|", "_", ",", "(", "_", ",", "expiry", ")", "|", "{"]:
+        raise TranslateError("%s: retain closure is not |_, (_, expiry)| { .. }" % fname)
+    env = SF({"now": ("Z", "now"), "expiry": ("optZ", "expiry"), "true": ("bool", "true"), "false": ("bool", "false")})
+    p = P(fold_self(nostar(clo[9:])), env)
+    e = p.block()
+    if p.i != len(p.t) or e[0] != "bool":
+        raise TranslateError("%s: retain predicate outside the vocabulary" % fname)
+    out = ["Definition gen_%s_keep (sf : string -> Z) (expiry : option Z) (now : Z) : bool := %s." % (tag, e[1]), ""]
+    if tag == "p":
+        # enclosing `if <cond> {` of the retain call inside fn maybe_clean_expired
+        f0 = next(i for i in range(len(toks) - 1) if toks[i] == ("id", "fn") and toks[i + 1] == ("id", "maybe_clean_expired"))
+        j = f0
+        while toks[j][1] != "{":
+            j += 1
+        if toks[j + 1] != ("id", "if"):
+            raise TranslateError("maybe_clean_expired does not start with its trigger")
+        k = j + 2
+        while toks[k][1] != "{":
+            k += 1
+        p = P(fold_self(toks[j + 2:k]), SF({"now": ("Z", "now")}))
+        c = p.expr()
+        if p.i != len(p.t) or c[0] != "bool":
+            raise TranslateError("periodic trigger outside the vocabulary")
+        khi = matching(toks, k, "{", "}")
+        if not (k < idx[0] < khi):
+            raise TranslateError("the sweep is not inside the trigger's block")
+        asg = [i for i in range(k, khi) if [t[1] for t in toks[i:i + 4]] == ["self", ".", "next_cleanup", "="]]
+        if len(asg) != 1:
+            raise TranslateError("expected exactly one assignment to self.next_cleanup in the trigger's block")
+        e2 = asg[0] + 4
+        while toks[e2][1] != ";":
+            e2 += 1
+        p = P(fold_self(toks[asg[0] + 4:e2]), SF({"now": ("Z", "now")}))
+        nx = p.expr()
+        if p.i != len(p.t) or nx[0] != "Z":
+            raise TranslateError("next_cleanup assignment outside the vocabulary")
+        out += ["Definition gen_p_due (sf : string -> Z) (now : Z) : bool := %s." % c[1],
+                "Definition gen_p_next (sf : string -> Z) (now : Z) : Z := %s." % nx[1], ""]
+    return out
+
+
 def translate():
     out = ["(* GENERATED by tools/extract_stores.py from throttlecrab/src/core/store/*.rs of /repo on every run.",
            "   Do not edit: Store/GenStoreTie.v proves these decision lists equal to the store models' entry-level functions. *)",
-           "From Coq Require Import ZArith Bool.", "Require Import TC.Store.GenStoreOps.", "Open Scope Z_scope.", ""]
+           "From Coq Require Import ZArith Bool String.", "Require Import TC.Store.GenStoreOps.", "Open Scope Z_scope.", "Open Scope bool_scope.", ""]
     for tag, fname, sname in STORES:
         out += translate_store(tag, fname, sname)
+        out += translate_sweep(tag, fname)
     return "\n".join(out)
 
 
